@@ -77,6 +77,7 @@ class LimitedRateLimiter(RateLimiter):
 
     def __init__(self, limit_kbps: int):
         super().__init__(limit_bps=limit_kbps * 1024)
+        self._lock: asyncio.Lock = asyncio.Lock()
 
     def is_empty(self) -> bool:
         return self.bucket < self.MIN_BUCKET_SIZE
@@ -96,13 +97,17 @@ class LimitedRateLimiter(RateLimiter):
         return self.is_empty()
 
     async def take_tokens(self) -> int:
-        while True:
-            is_empty = self.refill()
-            if not is_empty:
-                self.bucket -= self.MIN_BUCKET_SIZE
-                return self.MIN_BUCKET_SIZE
+        # Waiters are served one at a time in order of arrival. When all waiters
+        # poll the bucket independently a waiter can be starved forever by
+        # others that poll in lockstep with it
+        async with self._lock:
+            while True:
+                is_empty = self.refill()
+                if not is_empty:
+                    self.bucket -= self.MIN_BUCKET_SIZE
+                    return self.MIN_BUCKET_SIZE
 
-            await asyncio.sleep(INTERVAL)
+                await asyncio.sleep(INTERVAL)
 
     def add_tokens(self, token_amount: int):
         self.bucket += token_amount
